@@ -47,6 +47,15 @@ int esl_stopwatch_Stop(ESL_STOPWATCH* w){ (void)w; return 0; }
 int tl_stopwatch_Display(ESL_STOPWATCH* w){ (void)w; return 0; }
 #endif
 
+/* output goes to stdout (outfile == NULL) or, with -DKV_LONGOUT, to a file whose name is long enough for the MSF
+   description line to outgrow the line buffer (the writer then re-allocates the line and prints it again)        */
+#ifdef KV_LONGOUT
+#define KV_OUTBASE "an_output_file_with_a_name_that_is_much_longer_than_usual_so_the_line_must_grow.msf"
+#define KV_OUTFILE "dir/" KV_OUTBASE
+#else
+#define KV_OUTBASE "stdout"
+#define KV_OUTFILE NULL
+#endif
 #ifndef KV_N
 #define KV_N 2
 #endif
@@ -123,7 +132,15 @@ static void spec_msf(void)
         line_lit("");
         /* the "MSF: <len> Type: <P|N> ... Check: <sum>" line: its values are compared as recorded arguments (kv_msf), not as text */
         kv_spec_total = total;
+#ifdef KV_ENTRY_ROUNDTRIP
         line_begin(); line_end(); kv_exp_len[kv_exp_n - 1] = -1;
+#else
+        /* ... and the text around them (file name, keywords, date, closing "..") as text: the capture stub prints a '*' for
+           each of the three numbers */
+        line_begin();
+        sb_putc(&cur, ' '); sb_puts(&cur, KV_OUTBASE); sb_puts(&cur, "  MSF: *  Type: *  DATE  Check: *  ..");
+        line_end();
+#endif
         line_lit("");
         for(i = 0; i < KV_N; i++){
                 int j;
@@ -185,7 +202,7 @@ void h_c15_write(void)
         spec_msf();
 #endif
 
-        rc = kalign_write_msa(m, NULL, KV_FMT == 0 ? "fasta" : KV_FMT == 1 ? "clu" : "msf");
+        rc = kalign_write_msa(m, KV_OUTFILE, KV_FMT == 0 ? "fasta" : KV_FMT == 1 ? "clu" : "msf");
 
         KV_CHECK(rc == OK, "kalign_write_msa returns OK for a finalised alignment");
         KV_CHECK(!kv_out_overflow && !kv_bad_format, "capture: only the known formats, output fits");
